@@ -6,6 +6,7 @@
 package lib
 
 import (
+	"runtime"
 	"encoding/hex"
 	"encoding/json"
 	"fmt"
@@ -251,6 +252,10 @@ func CleanupFonts() {
 // Watchdog per case.
 var Watchdog = 3 * time.Second
 
+// Aborted is set when a case hung or allocated without bound: its goroutine cannot be stopped, so no further case is
+// executed in this process (the case file ends there; the hang itself is reported by the checks).
+var Aborted bool
+
 func guarded(f func() string) string {
 	done := make(chan string, 1)
 	go func() {
@@ -263,11 +268,24 @@ func guarded(f func() string) string {
 		res = f()
 		done <- res
 	}()
-	select {
-	case r := <-done:
-		return r
-	case <-time.After(Watchdog):
-		return "HANG\t"
+	deadline := time.After(Watchdog)
+	tick := time.NewTicker(20 * time.Millisecond)
+	defer tick.Stop()
+	var ms runtime.MemStats
+	for {
+		select {
+		case r := <-done:
+			return r
+		case <-deadline:
+			Aborted = true
+			return "HANG\t"
+		case <-tick.C:
+			runtime.ReadMemStats(&ms)
+			if ms.HeapAlloc > 3<<30 {
+				Aborted = true
+				return "HANG\t"
+			}
+		}
 	}
 }
 
@@ -430,17 +448,20 @@ func WriteAll(w *os.File, cases []Case) {
 			if c.Kind == "ORACLE" {
 				oracles = strings.Join(c.Fields, ",")
 			}
-			if c.Kind == "EXPECTLINES" || c.Kind == "EXPECTFMT" {
+			if c.Kind == "EXPECTLINES" || c.Kind == "EXPECTFMT" || c.Kind == "EXPECTSAME" {
 				pending = append(pending, c)
 				continue
 			}
 			fmt.Fprintln(w, c.Kind+"\t"+strings.Join(c.Fields, "\t"))
 			continue
 		}
+		if Aborted {
+			break
+		}
 		res := Run(c)
 		fmt.Fprintln(w, c.Kind+"\t"+strings.Join(c.Fields, "\t")+"\t"+res)
 		for _, x := range pending {
-			if msg := CheckExpectation(x, res); msg != "" {
+			if msg := CheckExpectation(x, res, c); msg != "" {
 				fmt.Fprintln(w, "GOFAIL\t"+strings.ToLower(x.Kind)+"\t"+strings.ReplaceAll(msg, "\t", " "))
 			}
 		}
@@ -493,9 +514,40 @@ func outputLines(res string) ([]string, bool) {
 // CheckExpectation evaluates a generator-side expectation on the implementation's result.
 //   EXPECTLINES hex(lines):  the command lines of the output (tab lines, a final generated return aside) are exactly these
 //   EXPECTFMT label widths maxW cursor font numLines: the text emitted under label is a correct layout for these parameters
-func CheckExpectation(x Case, res string) string {
+func CheckExpectation(x Case, res string, c Case) string {
 	lines, ok := outputLines(res)
 	switch x.Kind {
+	case "EXPECTSAME":
+		// EXPECTSAME label hex(src2): the block emitted under label (up to the next blank line) is the block emitted under the
+		// same label when src2 - the same statement without its unrelated neighbours - is compiled with the same options
+		if !ok || c.Kind != "CASE" {
+			return ""
+		}
+		c2 := Case{c.Kind, append([]string{}, c.Fields...)}
+		c2.Fields[9] = x.Fields[1]
+		lines2, ok2 := outputLines(Run(c2))
+		if !ok2 {
+			return ""
+		}
+		block := func(ls []string) []string {
+			var out []string
+			in := false
+			for _, l := range ls {
+				if l == x.Fields[0]+":" || l == x.Fields[0]+"::" {
+					in = true
+				} else if in && l == "" {
+					break
+				}
+				if in {
+					out = append(out, l)
+				}
+			}
+			return out
+		}
+		a, b := block(lines), block(lines2)
+		if len(b) > 0 && strings.Join(a, "\n") != strings.Join(b, "\n") {
+			return fmt.Sprintf("the code emitted for %s depends on unrelated statements: among them %q, on its own %q", x.Fields[0], a, b)
+		}
 	case "EXPECTLINES":
 		if !ok {
 			return "the program is not accepted: " + strings.SplitN(res, "\t", 2)[0]
